@@ -5,9 +5,9 @@ CONSTANTS
   MaxOps = 2
   MaxSegs = 3
   Bases = {"empty", "/api", "/api/"}
-  TemplateIds = {"a", "ax", "ab", "xb", "axcy", "root", "a/"}
+  TemplateIds = {"a", "ax", "ab", "xb", "root", "a/"}
   OpMethods = {"GET", "POST"}
   ReqMethods = {"GET", "get", "Post", "PUT"}
-  SegIds = {"a", "b", "c", "api", ":", "a%2Fb", "%25", "..", "empty"}
+  SegIds = {"a", "b", "api", ":", "a%2Fb"}
 INVARIANTS PropertyHolds
 CHECK_DEADLOCK FALSE
